@@ -1,8 +1,14 @@
-(* Proofs/EvalLogLoad.v — each imported environment is loaded successfully at most once per evaluation,
-   for EVERY fault plan: a load that succeeds (the call is not the faulted one and the loader returns a
-   parsed definition) gets an [imps] entry, entries are never removed, and a name with an entry is never
-   loaded again.  Whether the k-th call was the faulted one is read off the log position, which is sound
-   because [calls = length log] is part of the invariant. *)
+(* Proofs/EvalLogLoad.v — the load discipline of eval_env, for EVERY fault plan.
+   A load that succeeds (the call is not the faulted one and the loader returns a parsed definition) gets an
+   [imps] entry, entries are never removed, and a name with an entry is never loaded again: successful loads are
+   pairwise distinct ([load_at_most_once]) and NO load of a name follows a successful load of it ([retry_ok]).
+   A load that FAILS (loader error, unparsable definition, faulted call) registers nothing — eval.evaluateImport
+   returns before the name reaches e.imports — so the next listing of the same name loads it again: the property's
+   "each imported environment is loaded at most once" is false of the model and of the code
+   ([load_at_most_once_refuted], known finding C05-failed-load-retried) and holds exactly outside the decidable
+   class [retried_failed] ([loads_once_outside_class]).
+   Whether the k-th call was the faulted one is read off the log position, which is sound because
+   [calls = length log] is part of the invariant. *)
 From Coq Require Import Lia ZifyN ZifyNat ZifyBool.
 From Verif Require Import Base.Bytes Model.Chain Model.GoText Model.Envelope Model.Eval.
 From Verif Require Import Proofs.EvalLogKit Proofs.EvalLogInd Proofs.EvalLog.
@@ -25,6 +31,33 @@ Fixpoint succ_loads (W : world) (l : list ev) : list string :=
 Lemma succ_loads_not_load W e l : is_load e = false -> succ_loads W (e :: l) = succ_loads W l.
 Proof. destruct e; cbn; intros H; try reflexivity; discriminate. Qed.
 
+(* names of ALL loads in the log, and of those that failed *)
+Fixpoint all_loads (l : list ev) : list string :=
+  match l with
+  | [] => []
+  | EvLoad n :: r => n :: all_loads r
+  | _ :: r => all_loads r
+  end.
+
+Fixpoint failed_loads (W : world) (l : list ev) : list string :=
+  match l with
+  | [] => []
+  | EvLoad n :: r =>
+      if ok_load W n && negb (fault_at W (N.of_nat (length r))) then failed_loads W r else n :: failed_loads W r
+  | _ :: r => failed_loads W r
+  end.
+
+(* the retry discipline: when a name is loaded, no EARLIER load of it succeeded (the log is newest first) *)
+Fixpoint retry_ok (W : world) (l : list ev) : Prop :=
+  match l with
+  | [] => True
+  | EvLoad n :: r => ~ In n (succ_loads W r) /\ retry_ok W r
+  | _ :: r => retry_ok W r
+  end.
+
+Lemma retry_ok_not_load W e l : is_load e = false -> retry_ok W (e :: l) = retry_ok W l.
+Proof. destruct e; cbn; intros H; try reflexivity; discriminate. Qed.
+
 Definition hasI (s : st) (n : string) : Prop := alookup n (imps s) <> None.
 
 Lemma hasI_cons (m : list (string * imp_state)) n k v : alookup n m <> None -> alookup n ((k, v) :: m) <> None.
@@ -38,11 +71,13 @@ Variable W : world.
 Notation sl := (succ_loads W).
 
 Definition load_inv (s : st) : Prop :=
-  calls s = N.of_nat (length (log s)) /\ NoDup (sl (log s)) /\ forall n, In n (sl (log s)) -> hasI s n.
+  calls s = N.of_nat (length (log s)) /\ NoDup (sl (log s)) /\ (forall n, In n (sl (log s)) -> hasI s n)
+  /\ retry_ok W (log s).
 
 (* the invariant while environment [name] has been loaded but is not yet registered in [imps] *)
 Definition load_inv_x (name : string) (s : st) : Prop :=
-  calls s = N.of_nat (length (log s)) /\ NoDup (sl (log s)) /\ forall n, In n (sl (log s)) -> n = name \/ hasI s n.
+  calls s = N.of_nat (length (log s)) /\ NoDup (sl (log s)) /\ (forall n, In n (sl (log s)) -> n = name \/ hasI s n)
+  /\ retry_ok W (log s).
 
 Definition lframe (g s : st) : Prop :=
   (forall n, hasI g n -> hasI s n) /\ (forall n, hasI g n -> In n (sl (log s)) -> In n (sl (log g))).
@@ -59,7 +94,7 @@ Lemma RL_trans g s s' : RL g s -> RL s s' -> RL g s'.
 Proof. intros [F1 C1] [F2 C2]. split; [eapply lframe_trans; eassumption|auto]. Qed.
 
 Lemma load_inv_weaken name s : load_inv s -> load_inv_x name s.
-Proof. intros (C & ND & H). split; [exact C|]. split; [exact ND|]. intros n Hn. right. exact (H n Hn). Qed.
+Proof. intros (C & ND & H & RT). split; [exact C|]. split; [exact ND|]. split; [|exact RT]. intros n Hn. right. exact (H n Hn). Qed.
 
 (* operations that change neither imps, log nor calls *)
 Lemma RL_same g s s' : imps s' = imps s -> log s' = log s -> calls s' = calls s -> RL g s -> RL g s'.
@@ -75,8 +110,9 @@ Proof.
   intros He [[A B] C]. split; [split|].
   - exact A.
   - intros n Hn. cbn [emit call snd log]. rewrite succ_loads_not_load by exact He. exact (B n Hn).
-  - intros Hg. destruct (C Hg) as (Hc & ND & H). unfold load_inv, hasI. cbn [emit call snd log calls imps].
-    rewrite succ_loads_not_load by exact He. split; [cbn [length]; lia|]. split; [exact ND|exact H].
+  - intros Hg. destruct (C Hg) as (Hc & ND & H & RT). unfold load_inv, hasI. cbn [emit call snd log calls imps].
+    rewrite succ_loads_not_load by exact He. rewrite retry_ok_not_load by exact He.
+    split; [cbn [length]; lia|]. split; [exact ND|]. split; [exact H|exact RT].
 Qed.
 
 Lemma ev_ok_not_load IdOK E e : ev_ok W IdOK E e -> is_load e = false.
@@ -87,7 +123,7 @@ Proof.
   intros [[A B] C]. split; [split|].
   - intros n' Hn'. unfold hasI. cbn. apply hasI_cons. exact (A n' Hn').
   - exact B.
-  - intros Hg. destruct (C Hg) as (Hc & ND & H). split; [exact Hc|]. split; [exact ND|].
+  - intros Hg. destruct (C Hg) as (Hc & ND & H & RT). split; [exact Hc|]. split; [exact ND|]. split; [|exact RT].
     intros n' Hn'. unfold hasI. cbn. apply hasI_cons. exact (H n' Hn').
 Qed.
 
@@ -127,12 +163,13 @@ Proof. intros H. unfold call, fault_at. cbn. rewrite H. reflexivity. Qed.
 
 (* the load did not succeed: the invariant simply continues *)
 Lemma load_inv_failed n s :
-  load_inv s -> ok_load W n && negb (fst (call W s)) = false ->
+  load_inv s -> alookup n (imps s) = None -> ok_load W n && negb (fst (call W s)) = false ->
   load_inv (snd (emit (EvLoad n) (snd (call W s)))).
 Proof.
-  intros (Hc & ND & H) Hf. rewrite (call_failed s Hc) in Hf.
-  unfold load_inv, hasI. cbn [emit call snd log calls imps succ_loads]. rewrite Hf.
-  split; [cbn [length]; lia|]. split; [exact ND|exact H].
+  intros (Hc & ND & H & RT) Hnone Hf. rewrite (call_failed s Hc) in Hf.
+  unfold load_inv, hasI. cbn [emit call snd log calls imps succ_loads retry_ok]. rewrite Hf.
+  split; [cbn [length]; lia|]. split; [exact ND|]. split; [exact H|].
+  split; [|exact RT]. intros Hin. exact (H n Hin Hnone).
 Qed.
 
 (* the load succeeded: [n] is pending until it is registered *)
@@ -140,19 +177,21 @@ Lemma load_inv_succeeded n s :
   load_inv s -> alookup n (imps s) = None ->
   load_inv_x n (snd (emit (EvLoad n) (snd (call W s)))).
 Proof.
-  intros (Hc & ND & H) Hnone.
-  unfold load_inv_x, hasI. cbn [emit call snd log calls imps succ_loads].
+  intros (Hc & ND & H & RT) Hnone.
+  assert (RT' : ~ In n (sl (log s)) /\ retry_ok W (log s)).
+  { split; [|exact RT]. intros Hin. exact (H n Hin Hnone). }
+  unfold load_inv_x, hasI. cbn [emit call snd log calls imps succ_loads retry_ok].
   split; [cbn [length]; lia|].
   destruct (ok_load W n && negb (fault_at W (N.of_nat (length (log s))))).
-  - split.
+  - split; [|split; [|exact RT']].
     + constructor; [|exact ND]. intros Hin. exact (H n Hin Hnone).
     + intros n' [<-|Hin]; [now left|right; exact (H n' Hin)].
-  - split; [exact ND|]. intros n' Hin. right. exact (H n' Hin).
+  - split; [exact ND|]. split; [|exact RT']. intros n' Hin. right. exact (H n' Hin).
 Qed.
 
 Lemma load_inv_register n v s : load_inv_x n s -> load_inv (snd (imps_set n v s)).
 Proof.
-  intros (Hc & ND & H). split; [exact Hc|]. split; [exact ND|].
+  intros (Hc & ND & H & RT). split; [exact Hc|]. split; [exact ND|]. split; [|exact RT].
   intros n' Hin. unfold hasI. cbn. destruct (H n' Hin) as [->|Hh]; [apply hasI_self|apply hasI_cons, Hh].
 Qed.
 
@@ -250,7 +289,7 @@ Theorem load_at_most_once W fuel root name d :
   NoDup (succ_loads W (log (snd (eval_env W fuel root name d st0)))).
 Proof.
   destruct (eval_env_load W fuel root name d st0) as [_ H].
-  apply H. split; [reflexivity|]. split; [constructor|intros n []].
+  apply H. split; [reflexivity|]. split; [constructor|]. split; [intros n []|exact I].
 Qed.
 
 (* without a fault plan, the successful loads are exactly the loads of names the loader knows *)
@@ -294,3 +333,133 @@ Qed.
 Theorem run_load_at_most_once_no_fault fuel W name d :
   w_fault W = None -> NoDup (ok_loads W (ob_log (run fuel W name d))).
 Proof. intros Hf. rewrite run_log, ok_loads_rev. apply NoDup_rev, load_at_most_once_no_fault, Hf. Qed.
+
+(* ------------------------------------------------------------------------------------------- *)
+(** * ALL loads: the retry discipline, the refutation of "every environment is loaded at most once", and the
+      exact class outside which it holds *)
+
+Theorem load_retry_ok W fuel root name d : retry_ok W (log (snd (eval_env W fuel root name d st0))).
+Proof.
+  destruct (eval_env_load W fuel root name d st0) as [_ H].
+  apply H. split; [reflexivity|]. split; [constructor|]. split; [intros n []|exact I].
+Qed.
+
+Lemma all_loads_split W l n : In n (all_loads l) -> In n (succ_loads W l) \/ In n (failed_loads W l).
+Proof.
+  induction l as [|e l IH]; [intros []|]. destruct e; cbn; try exact IH.
+  destruct (ok_load W name && negb (fault_at W (N.of_nat (length l)))); cbn; intros [<-|H]; auto;
+    destruct (IH H); auto.
+Qed.
+
+Lemma failed_loads_sub W l n : In n (failed_loads W l) -> In n (all_loads l).
+Proof.
+  induction l as [|e l IH]; [intros []|]. destruct e; cbn; try exact IH.
+  destruct (ok_load W name && negb (fault_at W (N.of_nat (length l)))); cbn; [auto|]. intros [<-|H]; auto.
+Qed.
+
+Definition count_name (n : string) (l : list string) : nat := count_occ string_dec l n.
+
+(* a name that is loaded twice has a failed load *)
+Lemma retry_dup_failed W l : retry_ok W l -> forall n, (2 <= count_name n (all_loads l))%nat -> In n (failed_loads W l).
+Proof.
+  unfold count_name. induction l as [|e l IH]; intros RT n Hc; [cbn in Hc; lia|].
+  destruct e; cbn in RT, Hc |- *; try exact (IH RT n Hc).
+  destruct RT as [Hno RT].
+  assert (forall X : bool, In n (failed_loads W l) ->
+          In n (if X then failed_loads W l else name :: failed_loads W l)) as Hw.
+  { intros [|] H; [exact H|right; exact H]. }
+  destruct (string_dec name n) as [->|Hne].
+  - assert (In n (all_loads l)) as Hin by (apply (count_occ_In string_dec); lia).
+    apply Hw. destruct (all_loads_split W l n Hin) as [Hs|Hf]; [contradiction|exact Hf].
+  - apply Hw. apply IH; [exact RT|exact Hc].
+Qed.
+
+(* the decidable class of the known finding C05-failed-load-retried: some FAILED load's name is loaded more than once *)
+Definition retried_failed (W : world) (l : list ev) : bool :=
+  existsb (fun n => Nat.ltb 1 (count_name n (all_loads l))) (failed_loads W l).
+
+Theorem loads_once_outside_class W l : retry_ok W l -> retried_failed W l = false -> NoDup (all_loads l).
+Proof.
+  intros RT Hc. apply (NoDup_count_occ string_dec). intros n.
+  destruct (Nat.leb_spec 2 (count_occ string_dec (all_loads l) n)) as [H2|H2]; [|lia].
+  exfalso. pose proof (retry_dup_failed W l RT n H2) as Hf.
+  assert (retried_failed W l = true) as Ht.
+  { unfold retried_failed. apply existsb_exists. exists n. split; [exact Hf|]. apply Nat.ltb_lt. exact H2. }
+  rewrite Ht in Hc. discriminate.
+Qed.
+
+(* inside the class the statement is false, trivially: the class says a name occurs twice *)
+Lemma class_not_once W l : retried_failed W l = true -> ~ NoDup (all_loads l).
+Proof.
+  intros Hc ND. unfold retried_failed in Hc. apply existsb_exists in Hc. destruct Hc as (n & _ & Hn).
+  apply Nat.ltb_lt in Hn. pose proof (proj1 (NoDup_count_occ string_dec _) ND n). unfold count_name in Hn. lia.
+Qed.
+
+Theorem load_at_most_once_partial W fuel root name d :
+  retried_failed W (log (snd (eval_env W fuel root name d st0))) = false ->
+  NoDup (all_loads (log (snd (eval_env W fuel root name d st0)))).
+Proof. apply loads_once_outside_class, load_retry_ok. Qed.
+
+(* a load that is followed by another load of the same name was a failed one (newest-first log: [a] is later) *)
+Theorem reload_only_after_failure W fuel root name d a n b :
+  log (snd (eval_env W fuel root name d st0)) = a ++ EvLoad n :: b ->
+  In n (all_loads a) ->
+  (ok_load W n && negb (fault_at W (N.of_nat (length b)))) = false.
+Proof.
+  intros Hl Hin. pose proof (load_retry_ok W fuel root name d) as RT. rewrite Hl in RT. clear Hl.
+  induction a as [|e a IH]; [destruct Hin|].
+  destruct e; cbn in RT, Hin; try exact (IH Hin RT).
+  destruct RT as [Hno RT]. destruct Hin as [->|Hin]; [|exact (IH Hin RT)].
+  destruct (ok_load W n && negb (fault_at W (N.of_nat (length b)))) eqn:E; [|reflexivity].
+  exfalso. apply Hno. clear -E. induction a as [|e a IH]; cbn.
+  - rewrite E. now left.
+  - destruct e; cbn; try exact IH.
+    destruct (ok_load W name && negb (fault_at W (N.of_nat (length (a ++ EvLoad n :: b))))); [right|]; exact IH.
+Qed.
+
+(* ---- the witness: an import that cannot be parsed, listed three times; no fault plan ---- *)
+Definition W_badimport : world :=
+  {| w_envs := [("bad", LoadNoParse)]; w_provs := []; w_ctx := []; w_check := false; w_show := false;
+     w_fault := None; w_decrypt := fun _ _ => None |}.
+Definition d_triple_bad : envdef :=
+  {| ed_imports := [("bad", true); ("bad", true); ("bad", true)]; ed_values := [("z", ENull)] |}.
+(* the same through two import paths: root -> a -> bad, root -> b -> bad; here the loader fails *)
+Definition W_twopaths : world :=
+  {| w_envs := [("a", LoadOk {| ed_imports := [("bad", true)]; ed_values := [("x", ENum "1")] |});
+                ("b", LoadOk {| ed_imports := [("bad", true)]; ed_values := [("y", ENum "1")] |});
+                ("bad", LoadFail)];
+     w_provs := []; w_ctx := []; w_check := false; w_show := false; w_fault := None; w_decrypt := fun _ _ => None |}.
+Definition d_twopaths : envdef := {| ed_imports := [("a", true); ("b", true)]; ed_values := [("z", ENull)] |}.
+
+Example retried_load_logs :
+  ob_log (run 30 W_badimport "root" d_triple_bad) = [EvLoad "bad"; EvLoad "bad"; EvLoad "bad"]
+  /\ ob_log (run 30 W_twopaths "root" d_twopaths) = [EvLoad "a"; EvLoad "bad"; EvLoad "b"; EvLoad "bad"]
+  /\ retried_failed W_badimport (log (snd (eval_env W_badimport 30 "" "root" d_triple_bad st0))) = true
+  /\ retried_failed W_twopaths (log (snd (eval_env W_twopaths 30 "" "root" d_twopaths st0))) = true.
+Proof. vm_compute. repeat split. Qed.
+
+(* the property's load clause, as written ("each imported environment is loaded at most once per evaluation"),
+   is false of the model — and of eval.evaluateImport, see known finding C05-failed-load-retried *)
+Theorem load_at_most_once_refuted :
+  ~ (forall W fuel root name d, NoDup (all_loads (log (snd (eval_env W fuel root name d st0))))).
+Proof.
+  intros H. specialize (H W_badimport 30%nat "" "root" d_triple_bad).
+  assert (E : all_loads (log (snd (eval_env W_badimport 30 "" "root" d_triple_bad st0))) = ["bad"; "bad"; "bad"])
+    by (vm_compute; reflexivity).
+  rewrite E in H. inversion H as [|x l Hn _]. apply Hn. now left.
+Qed.
+
+(* chronological log of [run] *)
+Lemma all_loads_app a b : all_loads (a ++ b) = all_loads a ++ all_loads b.
+Proof. induction a as [|e a IH]; [reflexivity|]. destruct e; cbn; try exact IH. now rewrite IH. Qed.
+
+Lemma all_loads_rev l : all_loads (rev l) = rev (all_loads l).
+Proof.
+  induction l as [|e l IH]; [reflexivity|]. cbn [rev]. rewrite all_loads_app, IH.
+  destruct e; cbn; rewrite ?app_nil_r; reflexivity.
+Qed.
+
+Theorem run_load_at_most_once_partial fuel W name d :
+  retried_failed W (log (snd (eval_env W fuel "" name d st0))) = false ->
+  NoDup (all_loads (ob_log (run fuel W name d))).
+Proof. intros H. rewrite run_log, all_loads_rev. apply NoDup_rev, load_at_most_once_partial, H. Qed.
